@@ -221,8 +221,8 @@ def one_domain(ctx, n, maxreps, per_state, by_sig):
     bad2["tail"] = tuple(probe["tail"]) + (probe["head"][0],)
     r1, _ = evaluate(binder, bad1, inst, key, n)
     r2, _ = evaluate(binder, bad2, inst, key, n)
-    if ok or not r1 or not r2:
-        raise tlc.MachineryError("binding self-test failed: %r %r %r" % (ok, r1, r2))
+    if not r1 or not r2:            # (`ok` may be non-empty when the driver under test is broken; that is not our concern here)
+        raise tlc.MachineryError("binding self-test failed: corrupted expectations not noticed (%r %r %r)" % (ok, r1, r2))
     st = ctx.extra.setdefault("binding_selftest", {"corrupted_rejected": 0})
     st["corrupted_rejected"] += 2
     return True
